@@ -255,6 +255,17 @@ func c06Scenario(r *sim.Run) {
 				mid[k] = v
 			}
 			w.mu.Unlock()
+			dialFails := tp.Prob("dial-fails", 1, 5)
+			if dialFails {
+				// the covert host is down / unreachable at connection time: the station must give up (or
+				// retry the SAME checked literal), not fall back to anything it has not checked
+				sh := simnet.DialShapes[tp.Choose("dial-shape", len(simnet.DialShapes))]
+				w.mu.Lock()
+				w.failDials, w.failDialErr = 1, sh.Make(simnet.TCP("203.0.113.10", 443))
+				w.mu.Unlock()
+				class += "+dial-fails"
+				r.Fault("dial/" + sh.Name)
+			}
 			conn := w.open(c.phantom(false), simnet.TCP("198.51.100.20", 42000+i))
 			stWriteSegments(conn.H, append(fl, []byte("ping")...), nil, nil)
 			stReadN(conn.H, 4, 12*time.Second)
@@ -266,6 +277,7 @@ func c06Scenario(r *sim.Run) {
 			}
 			w.settle()
 			w.mu.Lock()
+			w.failDials = 0
 			var dialled []string
 			for _, d := range w.dials[nd:] {
 				dialled = append(dialled, d.addr)
@@ -301,8 +313,17 @@ func c06Scenario(r *sim.Run) {
 			}
 			r.Nontrivial()
 			if len(dialled) > 1 {
-				r.Fail("C06/dialled-twice", "one connection, %d dials: %v", len(dialled), dialled)
-				return
+				same := true
+				for _, d := range dialled[1:] {
+					if d != dialled[0] {
+						same = false
+					}
+				}
+				if !dialFails || !same {
+					// (a retry of the same checked literal after a failed dial would be legitimate)
+					r.Fail("C06/dialled-twice", "one connection, %d dials: %v (first dial failed: %v)", len(dialled), dialled, dialFails)
+					return
+				}
 			}
 			d := dialled[0]
 			dh, dp, err := net.SplitHostPort(d)
